@@ -5,7 +5,7 @@
 # since it doesn't do BIND or UDP ASSOCIATE.
 
 import struct
-from socket import inet_pton, inet_ntoa, inet_aton, AF_INET6, AF_INET
+from socket import inet_pton, inet_ntop, inet_ntoa, inet_aton, AF_INET6, AF_INET
 
 from twisted.internet.defer import inlineCallbacks, Deferred
 from twisted.internet.protocol import Protocol, Factory
@@ -167,7 +167,10 @@ class _SocksMachine(object):
             addr = self._data[4:20]
             port = struct.unpack('H', self._data[20:22])[0]
             self._data = self._data[22:]
-            self.reply_ipv6(addr, port)
+            if self._req_type == 'CONNECT':
+                self.reply_ipv6(addr, port)
+            else:
+                self.reply_domain_name(inet_ntop(AF_INET6, addr))
 
     def _parse_domain_name_reply(self):
         assert len(self._data) >= 8  # _parse_request_reply checks this
